@@ -10,7 +10,7 @@ from engines import bench
 
 ID = 'C16'
 SHARDS = {'quick': 8, 'thorough': 16}
-RULE = ("alphabet of 35 calls over a small world (containers c1, c2, an equal-named twin of c1, undeclared c3, plate "
+RULE = ("alphabet of 36 calls over a small world (containers c1, c2, an equal-named twin of c1, undeclared c3, plate "
         "p1): uses(x | list | twin), create_container(new | duplicate), create_solution(new | duplicate | declared "
         "container solvent | undeclared container solvent), create_solution_from(declared | undeclared source), "
         "transfer(declared | undeclared source | undeclared destination | into plate), remove / dilute (also with new_name) / fill_to "
@@ -28,7 +28,7 @@ ASSUMPTIONS = ["objects are identified by name (a twin with a declared name is t
                "uses([new, duplicate]) (partial application) is not judged"]
 REQUIRED_CLASSES = {'quick': ['baked', 'bake-refused', 'after-bake-call'], 'thorough': ['baked', 'bake-refused', 'after-bake-call', 'long']}
 
-CALLS = ['uses:c1', 'uses:c2', 'uses:p1', 'uses:[c2,p1]', 'uses:gen(c2,p1)', 'uses:twin',
+CALLS = ['uses:c1', 'uses:c2', 'uses:p1', 'uses:[c2,p1]', 'uses:gen(c2,p1)', 'uses:twin', 'uses:[c1,twin]',
          'create_container:n1', 'create_container:c1',
          'solution:s1', 'solution:c1', 'solution:s2/c2', 'solution:s3/c3',
          'solution_from:f1/c1', 'solution_from:f2/c3', 'solution_from_bad:f1/c1',
@@ -58,6 +58,8 @@ class World16:
         if kind == 'uses':
             if arg == '[c2,p1]':
                 return r.uses([h['c2'], h['p1']])
+            if arg == '[c1,twin]':
+                return r.uses([h['c1'], h['twin']])         # two distinct objects with one name inside one list
             if arg == 'gen(c2,p1)':
                 return r.uses(x for x in (h['c2'], h['p1']))       # any iterable, also one that can be walked only once
             return r.uses(h[arg])
@@ -153,6 +155,7 @@ class Model:
         self.created = set()         # names that come into existence through a create_* step
         self.pending = set()         # names used as operands while undeclared: bake must fail unless declared by then
         self.ambiguous = False
+        self.stop_after = False
 
     def expect(self, name):
         """-> (set of acceptable outcomes, effect thunk applied when the call is accepted)
@@ -163,7 +166,13 @@ class Model:
                 return {'RuntimeError', 'any-exception', 'ok-noop'}, None
             return {'RuntimeError'}, None
         if kind == 'uses':
-            names = {'c1': ['c1'], 'c2': ['c2'], 'p1': ['p1'], 'twin': ['c1'], '[c2,p1]': ['c2', 'p1'], 'gen(c2,p1)': ['c2', 'p1']}[arg]
+            names = {'c1': ['c1'], 'c2': ['c2'], 'p1': ['p1'], 'twin': ['c1'], '[c2,p1]': ['c2', 'p1'], 'gen(c2,p1)': ['c2', 'p1'],
+                     '[c1,twin]': ['c1', 'c1']}[arg]
+            if len(set(names)) < len(names):
+                # the second object has the name of the first: refused; how much of the list was applied before the
+                # refusal is not covered by any clause, so the history is judged up to this call only
+                self.stop_after = True
+                return {'ValueError'}, None
             dups = [n for n in names if n in self.declared]
             if dups:
                 if len(names) == 2 and names[0] not in self.declared:
@@ -318,6 +327,9 @@ def run_sequence(col, pp, seq, long_=False):
             exp = '|'.join(sorted(acceptable))
             col.report(f"{ctx}/{name.split(':')[0]}:{name.partition(':')[2] if kind in ('end', 'start', 'uses') else ''}"
                        f"/expected={exp}/got={got}", {'call': name, 'index': i, 'exc': repr(exc)[:160] if exc else None}, case)
+            return
+        if m.stop_after and not was_locked:
+            col.exclude('uses([a, same-named b]): state after the refusal not judged')
             return
         if got == 'ok' and effect is not None:
             effect()
